@@ -8,7 +8,9 @@ Step 1  hash-typed names of a file: identifiers introduced as
           let [mut] x … = <expr> … .collect::<HashSet…>()       (annotation or turbofish mentions Hash*)
           let [mut] x = f(…)    where f is a function of the scanned crates whose return type mentions Hash*
           parameters / struct fields   x : [&][mut] [std::collections::]HashSet<… / HashMap<…
-Step 2  iteration sites over such a name x (also self.x, used.x for struct fields):
+        let-bound names and parameters are scoped to the fn that introduces them (matched when not preceded by
+        `.`); struct fields apply to the whole file and are matched only as `<expr>.field`.
+Step 2  iteration sites over such a name x:
           for … in [&][mut] x            -> for
           x.iter() x.iter_mut()          -> iter
           x.keys() x.values() x.values_mut() x.into_keys() x.into_values() -> keys / values
